@@ -19,6 +19,7 @@ struct GCase {
     std::vector<std::string> instances;
     std::vector<int> instIsSchema;      // per instance; empty = all isSchema
     bool synthAnn = false;
+    bool psvi = true;                   // install PSVI handlers / DOM schema info (switched off where an unrelated library defect would abort the parse)
 };
 
 inline std::string rep(std::string s, const std::string& from, const std::string& to) {
